@@ -45,7 +45,8 @@ const DGRAMS: [(&str, bool, &str); 4] = [
 const EXT: [(&str, bool, &str); 2] = [("PINI", false, "10.0.0.9:5070"), ("PINS", true, "10.0.0.9:5071")];
 const EXT_DEST: &str = "198.51.100.7:7777";
 const V4_HOSTS: [&str; 2] = ["192.0.2.5", "192.0.2.6"];
-const V6_HOSTS: [&str; 2] = ["2001:db8::5", "2001:db8::6"];
+// the second IPv6 host is an IPv4-mapped address: still an IPv6 destination for transport selection
+const V6_HOSTS: [&str; 2] = ["2001:db8::5", "::ffff:192.0.2.6"];
 /// listeners (bound address; index = secure*2 + v6)
 const LISTEN: [&str; 4] = ["10.0.0.1:5060", "[fd00::1]:5060", "10.0.0.1:5061", "[fd00::1]:5061"];
 
